@@ -158,11 +158,20 @@ Section Importer.
   | OSkip (st : ist)                        (* "warning": the newcomer is ignored *)
   | OStored (st : ist) (id : str).          (* stored/merged; [id] is the key its Parent links belong to *)
 
+  (* "create_unique": the next <key>_n that is not taken yet (a feature may carry an explicit id
+     that looks like a generated one); more than |rows| retries are never needed *)
+  Fixpoint fresh_auto (fuel : nat) (base : str) (rows : list row) (a : counters) : option (str * counters) :=
+    let '(nid, a') := auto_incr base a in
+    if has_id nid rows then match fuel with O => None | Datatypes.S f => fresh_auto f base rows a' end
+    else Some (nid, a').
+
   Definition create_unique (st : ist) (f : row) (record_dup : bool) : result outcome :=
-    let '(nid, a) := auto_incr (r_id f) (s_auto st) in
-    if has_id nid (s_rows st) then Err EIntegrity      (* the generated key is taken: uncaught IntegrityError *)
-    else Ok (OStored (mkSt (s_rows st ++ [set_id nid f]) (s_rels st)
-                           (if record_dup then s_dups st ++ [(r_id f, nid)] else s_dups st) a) nid).
+    match fresh_auto (length (s_rows st)) (r_id f) (s_rows st) (s_auto st) with
+    | None => Err EOther
+    | Some (nid, a) =>
+        Ok (OStored (mkSt (s_rows st ++ [set_id nid f]) (s_rels st)
+                          (if record_dup then s_dups st ++ [(r_id f, nid)] else s_dups st) a) nid)
+    end.
 
   Definition do_merge (strat : strategy) (force : list field) (st : ist) (f : row) : result outcome :=
     match strat with
